@@ -12,6 +12,9 @@ def run(rep, tier, seed, replay):
                 "contains a branch")
     exprs = lib.inputs(rep, "C06", tier, seed, 3000, 40000, replay, max_depth=4)
     if replay is None:
+        import gen as _gin
+        exprs += [e for e in _gin.inherited_neighbour_family() if e not in set(exprs)]
+    if replay is None:
         atoms = ["a", "/", "*", "**", "{a,b}", "{a/,b}", "{/a,b}", "{*,a}", "{a,**/b}", "<a:1,>", "<a/:1,>", "</a:1,>", "<a/:0,1>", "</a:0,1>", "<*a:2>", "{{/a,b}c,d}", "<{/a,b}c/:2>", "x", "</a/:1>", "</a/:0,1>", "<a/**:1>"]
         k = 2 if tier == "quick" else 3
         exprs += [e for e in gen.small_scope(k, atoms) if e not in set(exprs)]
